@@ -230,6 +230,8 @@ fn run_one(kind: &str, sub: Sub, seed: u64, replay: Option<Vec<u8>>) -> (sched::
         let nprod_total = np;
         let is_susp = sub == Sub::Susp;
         let has_async = kind != "mcrossbeam";
+        // how many streams yield each accepted event: every listener of a Multi channel, one stream of a Uni channel
+        let copies = if is_multi { k } else { 1 };
         bodies.push(Box::new(move |ctx| {
             if is_susp && p == 0 && has_async {
                 // C20: one asynchronous send stays suspended until every other producer has finished its work
@@ -246,6 +248,13 @@ fn run_one(kind: &str, sub: Sub, seed: u64, replay: Option<Vec<u8>>) -> (sched::
                         sh.lock().unwrap().evs.push(Ev { who: p, what: "suspended".into(), v, pos });
                         let od = others_done.clone();
                         ctx.block_until(Box::new(move || od.load(SeqCst) == nprod_total - 1));
+                        sh.lock().unwrap().evs.push(Ev { who: p, what: "others_returned".into(), v, pos });
+                        // ... and what they sent meanwhile must reach the streams (driven by their wakers only) WITHOUT this send being resumed
+                        let sh2 = sh.clone();
+                        ctx.block_until(Box::new(move || {
+                            let s = sh2.lock().unwrap();
+                            s.evs.iter().filter(|e| e.what == "sent").all(|e| s.evs.iter().filter(|g| g.what == "got" && g.v == e.v).count() >= copies)
+                        }));
                         sh.lock().unwrap().evs.push(Ev { who: p, what: "others_finished".into(), v, pos });
                         gate.store(true, SeqCst);
                         ctx.call(p, "resume");
@@ -465,7 +474,12 @@ fn run_one(kind: &str, sub: Sub, seed: u64, replay: Option<Vec<u8>>) -> (sched::
             if ch.running() != 0 && false { viol.push(("running_count".into(), format!("running streams count {} after all ended", ch.running()))); }
         }
         Verdict::Deadlock if s.evs.iter().any(|e| e.what == "suspended") && !s.evs.iter().any(|e| e.what == "others_finished") => {
-            viol.push(("blocked_by_suspended_send".into(), format!("while one send_with_async stayed suspended, another operation on the {kind} channel never returned (every other thread is waiting for it)")));
+            if s.evs.iter().any(|e| e.what == "others_returned") {
+                let undelivered: Vec<u32> = sent.iter().filter(|e| !seen.contains_key(&e.v)).map(|e| e.v).collect();
+                viol.push(("blocked_by_suspended_send".into(), format!("while one send_with_async stayed suspended every other producer returned, yet the events {undelivered:?} they sent meanwhile were not delivered: every stream is parked with its waker not invoked -- they would only be delivered once the suspended send is resumed (kind {kind}, {} event(s) pending)", ch.pending())));
+            } else {
+                viol.push(("blocked_by_suspended_send".into(), format!("while one send_with_async stayed suspended, another operation on the {kind} channel never returned (every other thread is waiting for it)")));
+            }
         }
         Verdict::Deadlock => {
             if !drained.load(SeqCst) {
